@@ -117,7 +117,8 @@ class ChainOrder(Unit):
         ctx.require(z3.ForAll([k, z], z3.Implies(z3.And(0 <= k, k < n), B(k + 1, z) == INVF(T.at(n - 1 - k), B(k, z)))))
         chain = Rec("Chain", dict(transforms=T), module=BASE, frozen=True)
         spec = A if self.which == "apply" else B
-        ex.loops[(self.which, 1)] = LoopSpec(lambda ex_, kk: toz(ex_.frame.env["_intermediate"]) == spec(kk, x))
+        roles = aw.Roles()      # the running value is whatever local starts out as the argument (the parameter itself excluded)
+        ex.loops[(self.which, 1)] = LoopSpec(lambda ex_, kk: toz(roles.get(ex_.frame.env, "_intermediate", aw.is_term(x), exclude=("params", "self"))) == spec(kk, x))
         ret = ctx.call(self_obj=chain, args=[x])
         if self.which == "apply":
             ctx.ensure("C17 a chain applies its members first to last: apply(x) = t_n(...t_1(x))", toz(ret) == A(n, x))
